@@ -28,3 +28,41 @@ uint64_t ext__ZN7IStream14writev_mutableEP5ioveci(char* self, char* iov, uint32_
 uint64_t ext__ZN6photon2fs11ICacheStore18do_preadv2_mutableEP5iovecili(char* self, char* iov, uint32_t n, uint64_t off, uint32_t fl) { NOTONPATH; return 0; }
 uint64_t ext__ZN6photon2fs11ICacheStore11do_pwritev2EPK5iovecili(char* self, char* iov, uint32_t n, uint64_t off, uint32_t fl) { NOTONPATH; return 0; }
 uint64_t ext__ZN6photon2fs11ICacheStore19do_pwritev2_mutableEP5iovecili(char* self, char* iov, uint32_t n, uint64_t off, uint32_t fl) { NOTONPATH; return 0; }
+
+/* memcpy with a length that is symbolic for the translator (ir2c --memcpy-n verif_c17_memcpy_n).  rt/mem.c copies byte by byte
+ * through the raw pointers.  The copies store.cpp / iovector.h make with such lengths are
+ * (a) iovec arrays (length = 16 * iovcnt: IOVector(iov, iovcnt), SmartCloneIOV): copied element-wise as {pointer, length} pairs,
+ *     which keeps the pointers whole for the solver;
+ * (b) payload bytes (iovector_view::memcpy_iov): at most 12 in this harness, and always between two of the payload buffers the
+ *     harness hands out (the caller's segments, the refill buffer), which it registers in verif_c17_buf[].  The copy is written per
+ *     registered buffer object and CHECKs that both ends are registered buffers: a store through the raw pointer is encoded by the
+ *     solver as a possible update of every object in the pointer's points-to set, which for an iov_base read back from an IOVector
+ *     includes the IOVectors themselves.
+ * Either way exactly n bytes are copied from s to d. */
+struct c17_iov { char* base; uint64_t len; };
+#define C17_NBUF 8
+char* verif_c17_buf[C17_NBUF];
+static char* c17_base_of(char* p) {
+  for (int k = 0; k < C17_NBUF; k++) if (verif_c17_buf[k] != 0 && __CPROVER_same_object(p, verif_c17_buf[k])) return verif_c17_buf[k];
+  return 0;
+}
+void verif_c17_memcpy_n(char* d, char* s, uint64_t n) {
+  if (n >= 16 && (n & 15) == 0) {
+    __CPROVER_assert(n <= 64, "C17 harness bound: an iovec array copy has at most 4 entries");
+    __CPROVER_assume(n <= 64);
+    ((struct c17_iov*)d)[0] = ((struct c17_iov*)s)[0];
+    if (n >= 32) ((struct c17_iov*)d)[1] = ((struct c17_iov*)s)[1];
+    if (n >= 48) ((struct c17_iov*)d)[2] = ((struct c17_iov*)s)[2];
+    if (n >= 64) ((struct c17_iov*)d)[3] = ((struct c17_iov*)s)[3];
+    return;
+  }
+  if (n == 0) return;
+  __CPROVER_assert(n <= 12, "C17 harness bound: a payload copy has at most 12 bytes");
+  __CPROVER_assume(n <= 12);
+  char *db = c17_base_of(d), *sb = c17_base_of(s);
+  __CPROVER_assert(db != 0 && sb != 0, "C17: a payload copy runs between two payload buffers of the request (caller's segments, refill buffer)");
+  __CPROVER_assume(db != 0 && sb != 0);
+  uint64_t doff = __CPROVER_POINTER_OFFSET(d), soff = __CPROVER_POINTER_OFFSET(s);
+  __CPROVER_assert(doff + n <= __CPROVER_OBJECT_SIZE(db) && soff + n <= __CPROVER_OBJECT_SIZE(sb), "C17: a payload copy stays inside both buffers");
+  for (uint64_t i = 0; i < 12; i++) { if (i >= n) break; db[doff + i] = sb[soff + i]; }
+}
